@@ -369,6 +369,8 @@ func runC03(c *Ctx) {
 
 	// ---------- R5 ----------
 	checkAddrTypeCoverage(c)
+	// an issued address keeps its identity: the duplicate check that protects its row looks under the key its writer used
+	checkHashedBucketKeys(c, "C03-R5")
 	// ---------- R6 ----------
 	for _, spec := range [][2]string{{"managedAddress", "privKeyCT"}, {"baseScriptAddress", "scriptClearText"}} {
 		fn := p.Func("waddrmgr", spec[0], "lock")
